@@ -772,7 +772,7 @@ case('slice', 'slice/slice_', r_slice,
 case('splitWhere', 'splitWhere/split_where', r_split_where,
      api=lambda e, P, name: M(name, P(e.t), e.P), text='$c.splitWhere({P})', uses='c k r', lams={'P': ['gt', 'mod']})
 case('sliceWhere', 'sliceWhere/slice_where', r_slice_where,
-     api=lambda e, P, name: M(name, P(e.t), e.P), text='$c.sliceWhere({P})', uses='c k r', lams={'P': ['gt', 'mod']})
+     api=lambda e, P, name: M(name, P(e.t), e.P), text='$c.sliceWhere({P})', uses='c k r', lams={'P': ['id', 'gt', 'mod']})
 case('splitAt', 'splitAt/split_at',
      lambda e: [[x for n, x in enumerate(e.t) if n < e.i], [x for n, x in enumerate(e.t) if n >= e.i]],
      api=lambda e, P, name: M(name, P(e.t), e.i), text='$c.splitAt($i)', uses='c i', dom=lambda e: e.i >= 0)
@@ -803,6 +803,14 @@ def mw_deep(e):
     return d1, d2
 
 
+def mw_levels(e):
+    """two common sub-dictionaries before a common list, three levels deep: the level budget of one key must not
+    depend on what was merged for the keys before it"""
+    d1 = {'n': {'m': {'a': e.t[0]}, 'x': e.k}, 'p': {'q': {'z': e.k}, 'l': [e.t[0]]}, 'l': [e.t[1]]}
+    d2 = {'n': {'m': {'a': e.u[0]}, 'x': e.r}, 'p': {'q': {'z': e.r}, 'l': [e.u[0]]}, 'l': [e.u[1]]}
+    return d1, d2
+
+
 def mw_nested(e):
     return ({'n': flat_dict(e.i, e.t[0], e.t[1]), 'x': e.k, 'y': e.k},
             {'n': flat_dict(e.j, e.u[0], e.u[1]), 'x': e.r, 'z': e.r})
@@ -812,7 +820,8 @@ def mw_lists(e):
     return {'l': list(e.t), 'x': 1}, {'l': list(e.u)}
 
 
-MW = {'mergeWith.flat': mw_flat, 'mergeWith.nested': mw_nested, 'mergeWith.lists': mw_lists}
+MW = {'mergeWith.flat': mw_flat, 'mergeWith.nested': mw_nested, 'mergeWith.lists': mw_lists,
+      'mergeWith.levels': mw_levels}
 
 
 def mw_dom(e):
@@ -845,6 +854,11 @@ case('mergeWith.maxLevels', 'mergeWith/merge_with',
      lambda e: r_merge(mw_deep(e)[0], mw_deep(e)[1], lambda a, b: uniq(a + b), second, 1),
      api=lambda e, P, name: M(name, freeze(mw_deep(e)[0]), freeze(mw_deep(e)[1]), maxLevels=1),
      text='$w1.mergeWith($w2, maxLevels => 1)', uses='c d i j k r', dom=mw_dom, nones=False, pres=('tuple',), cost=2)
+case('mergeWith.levels', 'mergeWith/merge_with',
+     lambda e: r_merge(mw_levels(e)[0], mw_levels(e)[1], lambda a, b: uniq(a + b), second, e.v),
+     api=lambda e, P, name: M(name, freeze(mw_levels(e)[0]), freeze(mw_levels(e)[1]), maxLevels=e.v),
+     text='$w1.mergeWith($w2, maxLevels => $v)', uses='c d k r v',
+     dom=lambda e: e.n == 2 and len(e.u) == 2 and 0 <= e.v <= 4, nones=False, pres=('tuple',), cost=2)
 
 
 def kind_dom(e):
